@@ -114,8 +114,21 @@ impl EpmdClient {
             })
     }
 
+    /// Bounds a whole request/reply exchange by the configured timeout: an EPMD that accepts the
+    /// connection and then sends nothing, or only a part of its reply, ends in `Error::Timeout`.
+    async fn within_timeout<T>(&self, exchange: impl Future<Output = Result<T>>) -> Result<T> {
+        tokio::time::timeout(self.timeout, exchange)
+            .await
+            .map_err(|_| Error::Timeout(self.timeout))?
+    }
+
     /// Lookup a node's port by name
     pub async fn lookup_node(&self, node_name: &str) -> Result<NodeInfo> {
+        self.within_timeout(self.lookup_node_exchange(node_name))
+            .await
+    }
+
+    async fn lookup_node_exchange(&self, node_name: &str) -> Result<NodeInfo> {
         let mut stream = self.connect().await?;
 
         let mut buf = BytesMut::new();
@@ -201,6 +214,26 @@ impl EpmdClient {
 
     /// Register a node with EPMD (ALIVE2_REQ)
     pub async fn register_node(
+        &self,
+        port: u16,
+        node_name: &str,
+        node_type: NodeType,
+        highest_version: u16,
+        lowest_version: u16,
+        extra: &[u8],
+    ) -> Result<u32> {
+        self.within_timeout(self.register_node_exchange(
+            port,
+            node_name,
+            node_type,
+            highest_version,
+            lowest_version,
+            extra,
+        ))
+        .await
+    }
+
+    async fn register_node_exchange(
         &self,
         port: u16,
         node_name: &str,
